@@ -85,7 +85,7 @@ def run(ctx):
         ok = len(ext) == 1 and any(lab is True and self_field(dd, "with_length_prefix") for dd, lab in gates(pfw.body, ext[0].bb))
         if ok:
             arr = strip_sym(arg_syms(ext[0])[1])
-            ok = arr[0] == "agg" and len(arr[3]) == 4 and all(const_int(x) == 0 for x in arr[3]) or "[0, 0, 0, 0]" in sym_str(arr) or (arr[0] == "const")
+            ok = arr[0] == "agg" and len(arr[3]) == 4 and all(const_int(x) == 0 for x in arr[3]) or "[0, 0, 0, 0]" in sym_str(arr) or (arr[0] == "const") or (arr[0] == "repeat" and const_int(arr[1]) == 0 and str(arr[2]) in ("4", "4_usize"))
         chk.ob("C09.a", pfw.path, ok, "prepare_for_write appends the 4-byte placeholder exactly in length-prefixed mode" if ok else "prepare_for_write does not append a 4-byte placeholder under with_length_prefix", pfw.loc())
     if commit:
         b = commit.body
